@@ -515,6 +515,34 @@ def _modexact_rule(chk):
         chk.ok(rule, "JOP_MODULO: number result from `%s` with sign correction" % exact[0].text()[:30])
 
 
+def _vmnarrow_rule(chk):
+    """janet_wrap_integer converts its argument to int32_t before boxing it.  That is exact for a 32-bit (or narrower)
+    signed operand and silently wrong for anything wider: a 64-bit intermediate such as the quotient of two 32-bit values
+    (-2^31 div -1 = 2^31) loses its top bit."""
+    from jv.vm import VMHandlers
+    rule = "C14-VMNARROW"
+    chk.rule(rule, "in the interpreter, janet_wrap_integer is applied only to operands that are at most 32 bits wide and signed (no silent truncation of a wider result)")
+    full = Program.load("default", units=["vm.c"])
+    vm = VMHandlers(full)
+    OKT = ("int32_t", "int", "uint8_t", "int8_t", "uint16_t", "int16_t", "unsigned char", "signed char", "short", "unsigned short", "char", "_Bool")
+    n = 0
+    for x in vm.fn.nodes:
+        if x.k == "cast" and (x.t or "") in ("int32_t", "int") and "janet_wrap_integer" in x.macro_names() and x.kids:
+            inner = x.kids[0]
+            while inner.k == "paren" and inner.kids:
+                inner = inner.kids[0]
+            n += 1
+            chk.instance(rule)
+            h = (vm.handler_of(x) or "?").replace("label_", "")
+            if (inner.t or "") in OKT:
+                chk.ok(rule, "%s: janet_wrap_integer(%s) on a %s" % (h, inner.text()[:24], inner.t))
+            else:
+                chk.violation(rule, "vm.c", "run_vm", "%s:%s" % (h, inner.text()[:20].replace(" ", "")), x.loc,
+                              "%s boxes `%s` (type %s) with janet_wrap_integer, which first converts to int32_t: values outside the 32-bit "
+                              "range are truncated instead of being returned as the number they are" % (h, inner.text()[:40], inner.t))
+    chk.floor(rule, 5, n)
+
+
 def _unsignedwrap_rule(chk):
     """brushift works on uint32: its result can be any value up to 2^32 - 1 and must be boxed as that number.  Boxing
     it through a 32-bit signed conversion (janet_wrap_integer) turns results with bit 31 set into negative numbers."""
@@ -558,6 +586,7 @@ def run(chk):
     _signedness_rule(chk, prog, tu)
     _unsignedwrap_rule(chk)
     _modexact_rule(chk)
+    _vmnarrow_rule(chk)
     chk.floor("C14-DIV", 8)
     chk.floor("C14-WRAP", 10)
     chk.floor("C14-METHODS", 40)
